@@ -27,7 +27,7 @@ MODS = [M + f for f in (
     "upipe_m3u_reader.c", "upipe_void_source.c", "upipe_even.c", "upipe_trickplay.c", "upipe_play.c", "upipe_stream_switcher.c",
     "upipe_separate_fields.c", "upipe_row_split.c", "upipe_row_join.c", "upipe_ntsc_prepend.c", "upipe_rtp_pcm_pack.c", "upipe_audio_copy.c",
     "upipe_subpic_schedule.c", "upipe_crop.c", "upipe_video_blank.c", "upipe_audio_blank.c", "upipe_sine_wave_source.c",
-    "upipe_blit.c", "upipe_videocont.c", "upipe_audiocont.c", "upipe_audio_split.c", "upipe_audio_merge.c", "upipe_grid.c",
+    "upipe_blit.c", "upipe_videocont.c", "upipe_audiocont.c", "upipe_audio_split.c", "upipe_audio_merge.c", "upipe_grid.c", "upipe_rtp_h264.c", "upipe_rtp_mpeg4.c",
 )]
 PIPEX = CORE + MODS + [E + "vmock_upump.c", E + "simfd.c"]
 
@@ -404,7 +404,7 @@ CAT_GENERIC2 = ("dejitter", "multicat_probe", "aes_decrypt", "aes_decrypt_clear"
                 "rtp_pcm_pack", "audio_copy", "crop", "video_blank", "audio_blank", "subpic_schedule",
                 "dejitter_sub", "subpic_schedule_sub", "play", "ts_psi_join",
                 "block_to_sound", "rtp_pcm_unpack", "m3u_reader", "row_join", "even", "trickplay", "stream_switcher",
-                "stream_switcher_ml", "blit", "videocont", "audiocont", "audio_split", "audio_merge", "grid")
+                "stream_switcher_ml", "blit", "videocont", "audiocont", "audio_split", "audio_merge", "grid", "rtp_h264", "rtp_mpeg4")
 CAT_ROWS += list(CAT_GENERIC2)
 # generic rows whose depth differs from (quick 4, thorough 5): input-subpipe rows need one more step (allocate the subpipe); ntsc_prepend moves 720x480 pictures
 CAT_GENERIC_DEPTH = {"dejitter_sub": (5, 6), "subpic_schedule_sub": (5, 6), "play": (5, 6), "ts_psi_join": (5, 6), "ntsc_prepend": (4, 4),
